@@ -239,11 +239,18 @@ pub(crate) fn msg_val(m: &bgp::Message) -> Val {
 }
 
 /// The reference encoding of an embedded BGP message: `PeerCodec::encode_to`
-/// on a fresh codec whose only negotiated feature is ADD-PATH (tx) = `addpath`
-/// for the family of the message.  This is the opaque byte-string parameter of
+/// on a fresh codec whose only negotiated features are ADD-PATH (tx) = `addpath`
+/// for the family of the message and the RFC 8950 form for an IPv4 route with an IPv6 next hop.  This is the opaque byte-string parameter of
 /// the Coq model (the BGP encoder itself is property C04).
 pub(crate) fn ref_encode(m: &bgp::Message, addpath: bool) -> Vec<u8> {
     let mut codec = bgp::PeerCodec::new();
+    // RFC 8950: an IPv4 unicast announcement with an IPv6 next hop can only be written
+    // with its NLRI inside MP_REACH_NLRI; every other message keeps the classic form.
+    codec.set_extended_nexthop(matches!(
+        m,
+        bgp::Message::Update(bgp::Update::Reach { family, nexthop: Some(nh), .. })
+            if *family == Family::IPV4 && nh.addr().is_ipv6()
+    ));
     if let Some(f) = msg_family(m) {
         codec.set_family(
             f,
@@ -254,7 +261,12 @@ pub(crate) fn ref_encode(m: &bgp::Message, addpath: bool) -> Vec<u8> {
         );
     }
     let mut buf = bytes::BytesMut::new();
-    codec.encode_to(m, &mut buf).expect("verif: encode_to");
+    if codec.encode_to(m, &mut buf).is_err() {
+        // attributes that leave no room for an NLRI in 4096 octets: the route was learned over
+        // a session with RFC 8654 extended messages, and is re-encoded within that limit
+        codec.extended_length = true;
+        codec.encode_to(m, &mut buf).expect("verif: encode_to");
+    }
     buf.to_vec()
 }
 
@@ -271,6 +283,8 @@ pub(crate) fn parse_pdu(fams: &[Family], addpath: bool, pdu: &[u8]) -> Val {
             },
         );
     }
+    // a PDU of more than 4096 octets can only come from a session with RFC 8654 extended messages
+    codec.extended_length = pdu.len() > 4096;
     let mut src = bytes::BytesMut::from(pdu);
     let r = codec.try_parse(&mut src);
     let rest = Val::us(src.len());
